@@ -28,7 +28,7 @@ VERIF = os.path.dirname(os.path.dirname(os.path.abspath(__file__)))
 
 def all_contracts():
     cons = {}
-    for modname in ("regex_c", "record_c", "structured_c", "entities_c", "assembly_c", "parts_c", "registry_c"):
+    for modname in ("regex_c", "record_c", "structured_c", "entities_c", "assembly_c", "parts_c", "registry_c", "errors_c"):
         try:
             mod = importlib.import_module("contracts." + modname)
         except ImportError as e:
